@@ -185,7 +185,7 @@ PENDING = {
 }
 
 NOT_APPLICABLE = {}
-HOOK_COMMITS = ["9c71e4cac", "fc646e211"]
+HOOK_COMMITS = ["9c71e4cac", "57088799e"]
 
 PENDING.update({
     "C02": dict(
@@ -303,7 +303,7 @@ PENDING.update({
     ),
 })
 CLAIMED.update(PENDING)
-HOOK_COMMITS = ["9c71e4cac", "fc646e211"]
+HOOK_COMMITS = ["9c71e4cac", "57088799e"]
 
 CLAIMED["C12"] = dict(
     category="exploration",
